@@ -22,15 +22,15 @@ def plan(tier, seed):
     for spec in plain:
         sz = c04.sd_size(spec)
         if tier == "quick":
-            mode = ("closure", "few") if sz <= 3 else ("depth", 2, "few")
+            mode = ("closure", "few") if sz <= 2 else (("depth", 2, "few") if sz <= 5 else ("depth", 1, "few"))
         else:
             mode = ("closure", "few") if sz <= 6 else ("depth", 2, "few")
         units.append(("plain", [spec], mode))
     unis["plain-alphabet exploration (K n<=4, U2c)"] = len(plain)
     # every order in which the nodes can be expanded one by one (closure of the succ-only alphabet): new paths to nodes
     # whose sub-diagram is already expanded appear in every possible way
-    succnets = [("k", k) for k, n in K.items() if len(n.sd[0]) >= 4 and len(n.sd[0]) <= (9 if tier == "quick" else 12)]
-    succnets += [("p4", a, b) for a, b in U.shard(U.P4_pairs(True), seed, 64 if tier == "quick" else 4) if 4 <= c04.sd_size(("p4", a, b)) <= 9]
+    succnets = [("k", k) for k, n in K.items() if len(n.sd[0]) >= 4 and len(n.sd[0]) <= (8 if tier == "quick" else 12)]
+    succnets += [("p4", a, b) for a, b in U.shard(U.P4_pairs(True), seed, 256 if tier == "quick" else 4) if 4 <= c04.sd_size(("p4", a, b)) <= 9]
     for spec in succnets:
         units.append(("succ", [spec], ("closure", "succ")))
     unis["succ-only closure (all expansion orders)"] = len(succnets)
@@ -38,12 +38,20 @@ def plan(tier, seed):
     deep = [("u", ("k", a), ("k", b)) for a in ks3 for b in ks3 if a <= b]
     deep = [d for d in deep if 6 <= c04.sd_size(d[1]) * c04.sd_size(d[2])]
     if tier == "quick":
-        deep = U.shard(deep, seed, 3)
-    deep += [("u", ("u", ("k", "depth_overlap"), ("k", "depth_overlap")), ("k", "bistable")),
-             ("u", ("u", ("k", "nested"), ("k", "depth_overlap")), ("k", "toggle_neg"))]
+        deep = U.shard(deep, seed, 12)
+    else:
+        deep += [("u", ("u", ("k", "depth_overlap"), ("k", "depth_overlap")), ("k", "bistable")),
+                 ("u", ("u", ("k", "nested"), ("k", "depth_overlap")), ("k", "toggle_neg"))]
     for spec in deep:
         units.append(("deepfirst", [spec], ("deepfirst",)))
     unis["deep-first expansion orders on unions (reference-free depth check, up to 8 variables)"] = len(deep)
+    # synthetic depth-bookkeeping harness (bbmc/dagdepth.py)
+    NSH = 64
+    dd = [(5, 10), (6, 9), (7, 8)] if tier == "quick" else [(5, 10), (6, 15), (7, 10)]
+    for (k, me) in dd:
+        for sh in range(NSH if k >= 6 else 1):
+            units.append(("dagdepth", [(k, me, sh, NSH if k >= 6 else 1)], ("dagdepth",)))
+    unis["depth harness: DAG shapes (nodes, max edges)"] = len(dd)
     fulld = 2
     fullnets = [("k", k) for k, n in K.items() if n.n <= 4 and len(n.sd[0]) <= (5 if tier == "quick" else 9)] + \
                [("idx", 2, i) for i in (U2 if tier != "quick" else [i for i in U2 if c04.sd_size(("idx", 2, i)) >= 3])]
@@ -51,8 +59,8 @@ def plan(tier, seed):
         units.append(("full", [spec], ("depth", fulld, "full")))
     unis["full-alphabet exploration depth 2"] = len(fullnets)
     if tier == "quick":
-        f3 = [("idx", 3, i) for i in U.shard(U.F3_indices(True), seed, 4)]
-        unis[f"F3c[{seed % 4}/4] depth-1 plain"] = len(f3)
+        f3 = [("idx", 3, i) for i in U.shard(U.F3_indices(True), seed, 8)]
+        unis[f"F3c[{seed % 8}/8] depth-1 plain"] = len(f3)
     else:
         f3 = [("idx", 3, i) for i in U.F3_indices(True)]
         unis["F3c depth-1 plain"] = len(f3)
@@ -60,9 +68,9 @@ def plan(tier, seed):
         units.append(("plain", ch, ("depth", 1, "none")))
     # C: summary() after build()
     summ = [("idx", 2, i) for i in range(256)] + [("k", k) for k in K] + [("idx", 3, i) for i in U.catalogue("multi")]
-    summ += [("idx", 3, i) for i in (U.F3_indices(True) if tier != "quick" else U.shard(U.F3_indices(True), seed, 2))]
+    summ += [("idx", 3, i) for i in (U.F3_indices(True) if tier != "quick" else U.shard(U.F3_indices(True), seed, 4))]
     summ += [("idx", 3, i) for i in U.shard(U.catalogue("maa"), seed, 64 if tier == "quick" else 8)]
-    summ += [("p4", a, b) for a, b in (U.P4_pairs(True) if tier != "quick" else U.shard(U.P4_pairs(True), seed, 2))]
+    summ += [("p4", a, b) for a, b in (U.P4_pairs(True) if tier != "quick" else U.shard(U.P4_pairs(True), seed, 4))]
     ks = sorted(U.kernel_small(3))
     summ += [("u", ("k", a), ("k", b)) for a in ks for b in ks if a <= b]
     unis["summary after build"] = len(summ)
@@ -71,7 +79,8 @@ def plan(tier, seed):
     units.sort(key=lambda u: (u[0] == "summary", u[2][0] != "closure" if u[2] else True))
     return {
         "units": units, "universes": unis,
-        "bounds": {"plain": "closure (|SD|<=3 quick / <=6 thorough) else depth 2, limits {None,2}; F3c at depth 1",
+        "bounds": {"plain": "closure (|SD|<=2 quick / <=6 thorough) else depth 2 (depth 1 above 5 nodes in quick), limits {None,2}; F3c at depth 1",
+                   "depth harness": "every topologically labelled DAG with all nodes reachable, (nodes, max edges) in " + str(dd) + ", x both child orders x every order of single-node expansions, as an explicit state graph over (expanded set, depth vector); transitions call the real _ensure_edge",
                    "full": "C14 alphabet (queries, skip, block with sources, scc, build, reclaim, pickle, ...) depth 2",
                    "pairs": "is_subgraph / is_isomorphic on all ordered pairs of the first 25 reached plain states per network",
                    "find_node": "every one of the 3^n spaces in every reached state"},
@@ -201,6 +210,33 @@ def deepfirst(net, spec, res):
     return vio
 
 
+def dagdepth_unit(spec, res):
+    from ..dagdepth import dags, check_dag
+    from biobalm import SuccessionDiagram
+    k, me, sh, nsh = spec
+    sd0 = SuccessionDiagram.from_rules("A, A")
+    if not hasattr(sd0, "_ensure_edge"):
+        count(res, "depth_harness_skipped_no_private_seam")
+        return []
+    vio = []
+    for idx, es in enumerate(dags(k, me)):
+        if idx % nsh != sh:
+            continue
+        for order in ("asc", "desc"):
+            v, (st, tr) = check_dag(lambda: sd0, k, es, order)
+            res["states"] += st
+            res["transitions"] += tr
+            res["evals"] += 1
+            if len(es) > k - 1:
+                res["nontrivial"].add(("dag", es, order))
+            if v:
+                vio.append(V("depth-wrong", {"dag": {"k": k, "edges": [list(e) for e in es], "order": order}}, v, site="dagdepth"))
+                break
+        if vio:
+            break
+    return vio
+
+
 def summary_check(net):
     out = []
     sd = new_sd(net)
@@ -253,11 +289,13 @@ def run_unit(unit):
     kind, specs, mode = unit
     res = new_result()
     for spec in specs:
-        net = U.resolve(spec)
+        net = U.resolve(spec) if kind != "dagdepth" else None
         case0 = {"net": list(spec)}
         try:
             with case_timeout(1800):
-                if kind == "summary":
+                if kind == "dagdepth":
+                    vio = dagdepth_unit(spec, res)
+                elif kind == "summary":
                     res["evals"] += 1
                     res["transitions"] += 2
                     vs, n = summary_check(net)
@@ -284,11 +322,18 @@ def run_unit(unit):
                 seen.add((v["oracle"], v["site"]))
                 res["violations"].append(v)
         if len(res["samples"]) < 2:
-            res["samples"].append({"net": net.bnet(), "kind": kind, "mode": str(mode)})
+            res["samples"].append({"net": net.bnet(), "kind": kind, "mode": str(mode)} if net is not None else {"kind": kind, "dag_family": list(spec)})
     return res
 
 
 def replay(case):
+    if "dag" in case:
+        from ..dagdepth import check_dag
+        from biobalm import SuccessionDiagram
+        sd0 = SuccessionDiagram.from_rules("A, A")
+        d = case["dag"]
+        v, _ = check_dag(lambda: sd0, d["k"], tuple(tuple(e) for e in d["edges"]), d["order"])
+        return [V("depth-wrong", case, v, site="dagdepth")] if v else []
     net = U.resolve(case["net"])
     out = []
     try:
